@@ -319,6 +319,11 @@ class Interp:
                 return Rat.sym('global:' + e.id)
         if isinstance(t, tuple) and t[0] in ('local', 'param', 'local-multi'):
             return Rat.sym('free:' + e.id)   # closure variable
+        if isinstance(t, Ext) and t.dotted in CONSTS:
+            c = CONSTS[t.dotted]
+            if c in ('nan', 'inf'):
+                return Rat.atom(App(c, []))
+            return Rat.sym(c)
         if isinstance(t, (Func, Ext)):
             return ('callable', t)
         if e.id in ('True', 'False'):
@@ -790,19 +795,24 @@ class Interp:
         return self.k
 
     def block(self, stmts):
-        """Execute statements; returns True if the block always terminates (return/continue/break/raise)."""
+        """Execute statements.  Returns True if the block always terminates (return/continue/break/raise), False if
+        it always falls through, or ('guard-rest', cond) if control falls through only under cond."""
         for i, s in enumerate(stmts):
             term = self.stmt(s)
             if term is True:
                 return True
             if isinstance(term, tuple) and term[0] == 'guard-rest':
-                # an if-branch terminated: the rest runs under the negated condition
+                # the rest of this block runs under the fall-through condition
                 self.guards.append(term[1])
                 try:
                     t2 = self.block(stmts[i + 1:])
                 finally:
                     self.guards.pop()
-                return False if not t2 else ('guard-rest-term',)
+                if t2 is True:
+                    return True
+                if t2 is False:
+                    return ('guard-rest', term[1])
+                return ('guard-rest', _conj(term[1], t2[1]))
         return False
 
     def stmt(self, s):
@@ -952,14 +962,20 @@ class Interp:
         t2 = self.block(s.orelse)
         self.guards.pop()
         env2 = self.env
-        if t1 and t2:
+        term1, term2 = (t1 is True), (t2 is True)
+        if term1 and term2:
             return True
-        if t1:
+        f1 = t1[1] if isinstance(t1, tuple) else None     # extra fall-through condition of the branch (None = always)
+        f2 = t2[1] if isinstance(t2, tuple) else None
+        if term1:
             self.env = env2
-            return ('guard-rest', neg_cond(c))
-        if t2:
+            return ('guard-rest', _conj(neg_cond(c), f2))
+        if term2:
             self.env = env1
-            return ('guard-rest', c)
+            return ('guard-rest', _conj(c, f1))
+        self._fall = None
+        if f1 is not None or f2 is not None:
+            self._fall = ('or', _conj(c, f1), _conj(neg_cond(c), f2))
         # merge
         merged = {}
         for name in set(env1) | set(env2):
@@ -986,6 +1002,10 @@ class Interp:
             else:
                 merged[name] = Opaque('phi(%s)' % name)
         self.env = merged
+        if getattr(self, '_fall', None) is not None:
+            fall = self._fall
+            self._fall = None
+            return ('guard-rest', fall)
         return False
 
     def st_For(self, s):
@@ -1156,6 +1176,14 @@ def shape_sym(name, i):
 
 def _nonneg_atom(a):
     return isinstance(a, App) and a.name in ('shape', 'len', 'size')
+
+
+def _conj(a, b):
+    if b is None:
+        return a
+    if a is None:
+        return b
+    return ('and', a, b)
 
 
 def _is_cond(v):
